@@ -20,9 +20,10 @@ func c13(p *P) {
 	r.Rule("C13.R3", "ToPartialGMessage strips exactly what completion restores, on copies", 5)
 	r.Rule("C13.R4", "completion binds by announced key and instance; host routes completed/buffered messages through validation", 7)
 	r.Rule("C13.R5", "MarshalForSigning = MarshalForSigningWithValueKey(Value.Key())", 2)
-	p.include(c05, map[string]string{"C05.R4": "C13.R6", "C05.R5": "C13.R7", "C05.R6": "C13.R8", "C05.R1": "C13.R9", "C05.R2": "C13.R10"},
-		map[string]string{"C13.R10": "per-phase validity table identical for the partial and the full form", "C13.R6": "partial path: justification guards and expectation table", "C13.R7": "partial path: aggregate verified with the expected key", "C13.R8": "partial path: caches keyed by announced key / verified key, separate namespaces", "C13.R9": "partial path: message checks with the announced key"})
+	p.include(c05, map[string]string{"C05.R4": "C13.R6", "C05.R5": "C13.R7", "C05.R6": "C13.R8", "C05.R1": "C13.R9", "C05.R2": "C13.R10", "C05.R8": "C13.R11"},
+		map[string]string{"C13.R11": "validation-cache structures: lookups are read-only", "C13.R10": "per-phase validity table identical for the partial and the full form", "C13.R6": "partial path: justification guards and expectation table", "C13.R7": "partial path: aggregate verified with the expected key", "C13.R8": "partial path: caches keyed by announced key / verified key, separate namespaces", "C13.R9": "partial path: message checks with the announced key"})
 
+	p.gCompletionOrder("C13.R4")
 	// ---------- R1
 	fv := p.fn("C13.R1", "gpbft.cachingValidator.FullyValidateMessage")
 	if fv != nil {
